@@ -1,12 +1,12 @@
 CONSTANTS
-  Operands <- PrecOperands
-  Binary <- AllBinary
-  Prefix = {"u-", "u+"}
-  Postfix = {"%"}
-  Calls = {"SUM(", "IF("}
+  Operands <- RefOperands
+  Binary <- RefBinary
+  Prefix = {"u-"}
+  Postfix = {}
+  Calls <- AllCalls
   Parens = TRUE
-  MaxLen = 5
-  MinExport = 1
+  MaxLen = 13
+  MinExport = 4
   Lit <- MCLit
   LitDev <- MCLitDev
   Refs <- MCRefs
